@@ -139,6 +139,26 @@ def _st_q():
     return r
 
 
+def _foreign(o, k):
+    """a rule object that does not belong to container o: a top-level rule of its sheet, a rule nested elsewhere, a fresh one"""
+    s = o if isinstance(o, css.CSSStyleSheet) else o.parentStyleSheet
+    if k == 'top-style':
+        return rule_of(s, R.STYLE_RULE)
+    if k == 'media-child':
+        return rule_of(s, R.MEDIA_RULE).cssRules[0]
+    if k == 'page-child':
+        return rule_of(s, R.PAGE_RULE).cssRules[0]
+    return css.CSSStyleRule('e', 'z:w')
+
+
+def _del_foreign(o, k):
+    r = _foreign(o, k)
+    if any(r is x for x in o.cssRules):
+        raise xml.dom.IndexSizeErr('own child: not a foreign rule')  # (keeps the menu uniform over containers; counted as a refusal without effect)
+    o.deleteRule(r)
+
+
+FOREIGN = ['top-style', 'media-child', 'page-child', 'fresh']
 RULEKEYS = ['st', 'cs', 'im', 'ns', 'pg', 'ff', 'md', 'cm', 'mg', 'stq', 'bad', 'nspv', 'nsqu']
 
 # ---- mutators: target -> list of (mutator name, function(obj, arg), argument menu) ---------------------------------
@@ -148,7 +168,7 @@ MUTATORS = {
               ('insertRule(r,99)', lambda o, k: o.insertRule(_rules(k), 99), ['st', 'cm']), ('insertRule(text,4)', lambda o, t: o.insertRule(t, 4), STYLE_RULE_TEXTS + ['@import "q";', '@namespace r "w";']),
               ('add', lambda o, k: o.add(_rules(k)), RULEKEYS), ('deleteRule', lambda o, i: o.deleteRule(i), [0, 2, 4, 8, 9, -1, -20]),
               ('namespaces[]=', lambda o, a: o.namespaces.__setitem__(a[0], a[1]), [('p', 'u'), ('p', 'v'), ('q', 'u'), ('q', 'v'), ('', 'u'), ('', 'v')]),
-              ('del namespaces[]', lambda o, p: o.namespaces.__delitem__(p), ['p', 'q', ''])],
+              ('del namespaces[]', lambda o, p: o.namespaces.__delitem__(p), ['p', 'q', '']), ('deleteRule(foreign rule)', _del_foreign, FOREIGN[1:])],
     'charset': [('cssText=', _set('cssText'), CHARSET_TEXTS), ('encoding=', _set('encoding'), ENCODINGS)],
     'import': [('cssText=', _set('cssText'), IMPORT_TEXTS), ('href=', _set('href'), ['y.css', '', None]), ('media=', _set('media'), MEDIA_TEXTS), ('name=', _set('name'), ['n', '', None, 3])],
     'import.media': [('mediaText=', _set('mediaText'), MEDIA_TEXTS), ('appendMedium', lambda o, m: o.appendMedium(m), MEDIA_TEXTS), ('deleteMedium', lambda o, m: o.deleteMedium(m), ['print', 'tv', '3d', ''])],
@@ -170,14 +190,14 @@ MUTATORS = {
     'media': [('cssText=', _set('cssText'), MEDIA_RULE_TEXTS), ('media=', _set('media'), MEDIA_TEXTS), ('name=', _set('name'), ['n', '', None, 3]),
               ('insertRule(r,0)', lambda o, k: o.insertRule(_rules(k), 0), RULEKEYS), ('insertRule(r,9)', lambda o, k: o.insertRule(_rules(k), 9), ['st', 'cm']),
               ('insertRule(text)', lambda o, t: o.insertRule(t, 0), STYLE_RULE_TEXTS + ['@import "q";', '@page{z:w}']), ('add', lambda o, k: o.add(_rules(k)), RULEKEYS),
-              ('deleteRule', lambda o, i: o.deleteRule(i), [0, 1, -1, -5])],
+              ('deleteRule', lambda o, i: o.deleteRule(i), [0, 1, -1, -5]), ('deleteRule(foreign rule)', _del_foreign, FOREIGN)],
     'media.media': [('mediaText=', _set('mediaText'), MEDIA_TEXTS), ('appendMedium', lambda o, m: o.appendMedium(m), MEDIA_TEXTS), ('deleteMedium', lambda o, m: o.deleteMedium(m), ['print', 'tv', 'all', '3d', '']),
                     ('[0]=', lambda o, m: o.__setitem__(0, m), MEDIA_TEXTS)],
     'media.query0': [('mediaText=', _set('mediaText'), MEDIA_TEXTS), ('mediaType=', _set('mediaType'), ['tv', 'TV', '3d', '', 'x'])],
     'media.style': [('cssText=', _set('cssText'), STYLE_RULE_TEXTS), ('selectorText=', _set('selectorText'), SELECTOR_TEXTS)],
     'page': [('cssText=', _set('cssText'), PAGE_TEXTS), ('selectorText=', _set('selectorText'), [':left', '', 'n', 'n:first', '$$', ':x', ':first :left', 'n m']), ('style=', _set('style'), DECL_TEXTS),
              ('insertRule(r)', lambda o, k: o.insertRule(_rules(k)), ['mg', 'st', 'cm', 'pg', 'bad']), ('add', lambda o, k: o.add(_rules(k)), ['mg', 'st', 'cm']),
-             ('deleteRule', lambda o, i: o.deleteRule(i), [0, 1, -1, -5])],
+             ('deleteRule', lambda o, i: o.deleteRule(i), [0, 1, -1, -5]), ('deleteRule(foreign rule)', _del_foreign, FOREIGN)],
     'page.style': [('cssText=', _set('cssText'), DECL_TEXTS)],
     'page.margin': [('cssText=', _set('cssText'), MARGIN_TEXTS), ('margin=', _set('margin'), ['@top-right', '@x', 'top-left', '', None]), ('style=', _set('style'), DECL_TEXTS)],
     'fontface': [('cssText=', _set('cssText'), FONTFACE_TEXTS), ('style=', _set('style'), DECL_TEXTS)],
